@@ -979,7 +979,23 @@ fn step(live: &mut Live, op: &Op, big: bool, sweep_seed: u64, gstep: u64, ctx: &
     false
 }
 
+/// Performance only: keep freed 64 MiB buffers inside the process (no mmap/munmap per
+/// allocation), so that the near-limit runs do not pay 16 384 page faults for every big
+/// `Vec`. Has no influence on any result.
+fn tune_allocator() {
+    #[cfg(all(target_os = "linux", target_env = "gnu"))]
+    {
+        static ONCE: std::sync::Once = std::sync::Once::new();
+        ONCE.call_once(|| unsafe {
+            libc::mallopt(libc::M_MMAP_MAX, 0);
+            libc::mallopt(libc::M_TRIM_THRESHOLD, i32::MAX);
+            libc::mallopt(libc::M_TOP_PAD, 64 << 20);
+        });
+    }
+}
+
 pub fn run(sc: &Scenario, ctx: &mut RunCtx) {
+    tune_allocator();
     if MEM_SIZE as u64 != SIZE || VM_MAX_RAM != SIZE {
         ctx.violate("mem-size", "mem-size", format!("MEM_SIZE = {MEM_SIZE}, VM_MAX_RAM = {VM_MAX_RAM}, the property says 64 MiB"));
         return;
